@@ -422,6 +422,9 @@ impl Sim {
                         }
                     }
                 }
+                IoEv::AutoBlock => {
+                    self.emit(json!({"e": "wrmode", "m": "block", "k": 0}));
+                }
                 IoEv::WrGarbage(b, e) => {
                     let mut a = empty_abs();
                     a["t"] = json!("MALFORMED");
@@ -697,6 +700,7 @@ impl Sim {
         self.pipe.set_wr_mode(m);
         let (name, k) = match m {
             WrMode::Accept => ("accept", 0),
+            WrMode::Budget(_) => ("accept", 0),
             WrMode::Max(k) => ("max", k),
             WrMode::Block => ("block", 0),
             WrMode::Err => ("err", 0),
